@@ -37,6 +37,10 @@ def gen(rng, spec):
 
 
 def run(spec, R):
+    if spec['kind'] == 'synthetic' and spec['name'] in ('plain0', 'asan0'):
+        from vlib.runner import shard_rng
+        from vlib.checks.C09 import long_sentence
+        long_sentence(search.Engine(R, spec['variant'], PROP), R, shard_rng(ID, spec['seed'], spec['name'] + '-long'))
     SC.run(ID, PROP, spec, R, gen, lambda s, c: (s.get('derivations') or 0) >= 2)
 
 
